@@ -530,6 +530,11 @@ func main() {
 				sem <- struct{}{}
 				defer func() { <-sem }()
 				c.Result = runScenario(c.Scen, a.Out, i)
+				if c.Result.Class != 0 && len(c.Result.Steps) == 0 {
+					// nothing got through, not even the set-up: most likely the two free ports were taken
+					// by somebody else between probing and listening; a real defect shows again
+					c.Result = runScenario(c.Scen, a.Out, i)
+				}
 			}(i)
 		}
 	}
